@@ -15,9 +15,21 @@ META = {
             "JoinConn's close propagation - with the policy 'a returning copy loop closes both connections' regenerated "
             "from the source - every execution after either side closes is at most eleven steps long and ends with both "
             "sides' pending reads and the reads issued afterwards returned (sideConn.Read forgets the end marker, so the "
-            "later reads end only because the websocket gets closed: stated and proved as an explicit dependency). Chunk size, buffer sizes and 19 function bodies are regenerated from /repo "
+            "later reads end only because the websocket gets closed: stated and proved as an explicit dependency); in the "
+            "interleaving model of the endpoint's read handlers (buffer heap, free pool, any number of handler threads, "
+            "any schedule) the bytes encoded into a read reply are the bytes read for that very call when the buffer is "
+            "fresh per call or released only after the encoding - the ownership skeleton (where handleRead's buffer "
+            "comes from, whether anything releases it inside the handler, whether the response aliases it, whether "
+            "serveCall encodes afterwards) is extracted from the source - and a pooled buffer released before the "
+            "encoding is refuted. Chunk size, buffer sizes and 19 function bodies are regenerated from /repo "
             "on every run; the stage models are tied to the code by differential runs evaluated in Coq, and a real "
-            "Server+endpoint per tunnel mode carries position-dependent payloads of boundary sizes both ways.",
+            "Server+endpoint per tunnel mode carries position-dependent payloads of boundary sizes both ways; the front stage "
+            "alone (TLSHelloConn on a scripted connection: a hello with bytes behind it in one segment) is read with "
+            "every caller buffer size; eight concurrent connections through one endpoint per mode carry payloads in "
+            "which every word names direction, connection and offset; sideConn.Read is driven across message boundaries "
+            "(several frames per message, zero-length messages and frames, a connection lost in the middle of a message - "
+            "proved: delivered bytes = arrived bytes, a cut is an error and never io.EOF) (oracle: each connection's bytes are a prefix of "
+            "what was written on that very connection); the corpus runs once more under the Go race detector.",
     "note": "Partial (runtime): the interleaving of the two copy loops, TCP segmentation, websocket buffering and the "
             "message reader's chunking are schedule parameters of the model, not derived from the Go runtime; the close "
             "model's rules are a reading of the code justified rule by rule and observed end to end, not extracted; "
@@ -87,6 +99,31 @@ def read_term(r):
     return "KRead %s %s %d %d %s" % (script_term(r["script"]), nlist(ms), r["total"], ended, nlist(later))
 
 
+def readf_term(g):
+    ms = []
+    cut = g["total"] - g["complete"]
+    for f in g["script"]:
+        t = f["t"]
+        if t == "bin":
+            ms.append("GBin [zeros %d] true" % f["len"])
+        elif t == "frag":
+            ms.append("GBin [%s] true" % "; ".join("zeros %d" % p for p in f.get("parts") or []))
+        elif t == "cut":
+            ms.append("GBin [zeros %d] false" % max(cut, 0))     # what had left the writer when the connection went
+        elif t == "text":
+            ms.append("GText")
+        elif t == "close":
+            ms.append("GClose %d" % f.get("code", 0))
+        else:
+            ms.append("GErr")
+    bufs = g["bufs"]
+    need = len(g["script"]) + 6 + sum(f["len"] // min(bufs) + 2 + len(f.get("parts") or []) for f in g["script"])
+    rs = [bufs[i % len(bufs)] for i in range(need)]
+    ended = {"eof": 1, "error": 2}.get(g["ended"], 9)
+    later = [{"data": 0, "eof": 1, "error": 2, "block": 3}.get(k, 9) for k in g.get("later") or []]
+    return "KReadF [%s] %s %d %d %s" % ("; ".join(ms), nlist(rs), g["total"], ended, nlist(later))
+
+
 def reply_term(p):
     return "KReply %d %d %s %d %s" % (p["cap"], p["len"], cbool(p["n"] >= 0), max(p["n"], 0), cbool(p["aliased"]))
 
@@ -95,6 +132,38 @@ def pipe_term(p):
     need = len(p["chunks"]) + 2
     reads = [p["reads"][i % len(p["reads"])] for i in range(need)]
     return "KPipe %s %s %s" % (nlist(p["writes"]), nlist(reads), nlist(p["chunks"]))
+
+
+def rle_list(xs):
+    """a list of N as runs: (rep a n ++ [b] ++ ...)"""
+    parts, i = [], 0
+    while i < len(xs):
+        j = i
+        while j < len(xs) and xs[j] == xs[i]:
+            j += 1
+        parts.append("rep %d %d" % (xs[i], j - i) if j - i > 3 else "[" + ";".join(str(x) for x in xs[i:j]) + "]")
+        i = j
+    if not parts:
+        return "[]"
+    return "(" + " ++ ".join(parts) + ")%list"
+
+
+def stage_hello(hello):
+    """a padded synthetic hello: literal bytes with the long zero run of the padding as rep"""
+    parts, i, lit, n = [], 0, 0, len(hello)
+    while i < n:
+        j = i
+        while j < n and hello[j] == hello[i]:
+            j += 1
+        if j - i >= 64:
+            if i > lit:
+                parts.append(nlist(list(hello[lit:i])))
+            parts.append("rep %d %d" % (hello[i], j - i))
+            lit = j
+        i = j
+    if n > lit:
+        parts.append(nlist(list(hello[lit:n])))
+    return " ++ ".join(parts)
 
 
 def to_coq(c):
@@ -109,6 +178,11 @@ def to_coq(c):
         return write_term(c["write"])
     if s == "read":
         return read_term(c["read"])
+    if s == "readf":
+        g = c.get("readf")
+        if not g or g.get("setup_err"):
+            return None
+        return readf_term(g)
     if s == "reply":
         return reply_term(c["reply"])
     if s == "pipe":
@@ -118,6 +192,17 @@ def to_coq(c):
         if not w or w.get("err", "").startswith("setup:"):
             return None
         return "KWriteFail %s %s %s" % (nlist(w["sizes"]), nlist(w["ns"]), cbool(w["failed"]))
+    if s == "stage":
+        g = c["stage"]
+        hello = bytes.fromhex(g["hello"])
+        inp = "(%s ++ rep 0 %d)%%list" % (nlist(list(hello)) if len(hello) <= 400 else stage_hello(hello), g["trail"])
+        runs = []
+        for r in g["runs"]:
+            if len(r["chunks"]) > 3000:
+                continue                      # byte-sized buffers on a long stream: oracle only
+            ended = 1 if r["ended"] == "eof" else 7
+            runs.append("(%d, %s, %d)" % (r["m"], rle_list(r["chunks"]), ended))
+        return "KStage %s %s [%s]" % (inp, nlist(g["sched"]), "; ".join(runs))
     if s == "e2e":
         e = c["e2e"]
         if e.get("skipped"):
@@ -163,6 +248,28 @@ def impl_oracle(c):
         if closed and "block" in (r.get("later") or []):
             return ("side-later-read-hung", "the websocket was closed, yet a Read after the first end blocked: %s"
                     % r.get("later"))
+    elif s == "readf":
+        g = c.get("readf")
+        if not g or g.get("setup_err"):
+            return None
+        script = [(f["t"], f["len"]) + ((tuple(f["parts"]),) if f.get("parts") else ()) for f in g["script"]]
+        if g["too_long"]:
+            return ("side-read-overrun", "sideConn.Read returned more bytes than its buffer holds")
+        if not g["prefix_ok"]:
+            return ("side-readf-bytes", "bytes read are not a prefix of the bytes of the messages sent (script %s, "
+                    "buffers %s, %d read)" % (script, g["bufs"], g["total"]))
+        if g["ended"] not in ("eof", "error"):
+            return ("side-readf-hung", "sideConn.Read did not end after the stream's end (script %s): %s" % (script, g["ended"]))
+        if g["total"] < g["complete"]:
+            return ("side-readf-short", "the Reads ended (%s) after %d bytes although %d bytes of complete messages had "
+                    "been sent before the end (script %s, buffers %s)" % (g["ended"], g["total"], g["complete"], script, g["bufs"]))
+        has_cut = any(f["t"] == "cut" for f in g["script"])
+        if has_cut and g["ended"] == "eof":
+            return ("side-readf-cut-as-eof", "the connection was lost in the middle of a message, yet sideConn.Read reported "
+                    "a clean end of stream (io.EOF) after %d bytes (script %s)" % (g["total"], script))
+        if "block" in (g.get("later") or []):
+            return ("side-readf-later-hung", "the websocket was closed, yet a Read after the first end blocked: %s (script %s)"
+                    % (g.get("later"), script))
     elif s == "wfail":
         w = c.get("wfail")
         if not w:
@@ -184,6 +291,45 @@ def impl_oracle(c):
                     "data: %s" % (p["len"], p["cap"], p["n"], p["view_ok"]))
         if p["len"] > p["cap"] and p["n"] >= 0:
             return ("tunnel-read-overrun", "a read reply of %d bytes was accepted into a %d-byte buffer" % (p["len"], p["cap"]))
+    elif s == "conc":
+        g = c["conc"]
+        if g.get("setup_err"):
+            return ("e2e-setup", "could not run the concurrent connections: %s" % g["setup_err"])
+        n = len(g["conns"])
+        for cc in g["conns"]:
+            for name, d in (("application->client", cc["a2c"]), ("client->application", cc["c2a"])):
+                if not d["prefix_ok"]:
+                    if d.get("foreign"):
+                        return ("e2e-conc-crossed:%s" % g["mode"],
+                                "%s mode, %d concurrent connections through one endpoint, connection %d, %s: at offset %d "
+                                "of its stream the reader got %s - bytes written on another connection"
+                                % (g["mode"], n, cc["id"], name, d["first_diff"], d["foreign"]))
+                    return ("e2e-conc-corrupt:%s" % g["mode"],
+                            "%s mode, %d concurrent connections through one endpoint, connection %d, %s: received bytes "
+                            "are not a prefix of what was written on that connection (first wrong word at offset %d of %d)"
+                            % (g["mode"], n, cc["id"], name, d["first_diff"], d["sent"]))
+        for cc in g["conns"]:
+            for name, d in (("application->client", cc["a2c"]), ("client->application", cc["c2a"])):
+                if not d["complete"]:
+                    return ("e2e-conc-incomplete:%s" % g["mode"],
+                            "%s mode, %d concurrent connections through one endpoint, connection %d, %s: %d of %d bytes "
+                            "arrived while both sides were open (%s)"
+                            % (g["mode"], n, cc["id"], name, d["received"], d["sent"], d.get("err", "")))
+    elif s == "stage":
+        g = c["stage"]
+        if g["name"] != "stage.example":
+            return ("stage-name", "TLSHelloConn alone: HelloInfo reported %r for a hello of %d bytes naming stage.example"
+                    % (g["name"], g["hello_len"]))
+        bad = [r for r in g["runs"] if not r["ok"] or r["ended"] != "eof"]
+        if bad:
+            r = min(bad, key=lambda r: r["m"])
+            what = ("not a prefix of the bytes sent, first difference at offset %d" % r["first_diff"]
+                    if r["first_diff"] >= 0 else "%d of %d bytes" % (r["total"], g["hello_len"] + g["trail"]))
+            return ("stage-lost", "TLSHelloConn alone: a hello of %d bytes with %d byte(s) behind it, delivered as: %s; "
+                    "HelloInfo, then Reads with a %d-byte buffer returned %s and ended with %s: %s (%d of the %d buffer "
+                    "sizes tried fail; smallest shown)"
+                    % (g["hello_len"], g["trail"], g["seg_desc"], r["m"], r["chunks"][:10], r["ended"], what,
+                       len(bad), len(g["runs"])))
     elif s == "e2e":
         e = c["e2e"]
         if e.get("skipped"):
@@ -236,13 +382,36 @@ def run(ck):
             if line.startswith("{"):
                 cases.append(json.loads(line))
 
+    if binp:
+        # the corpus (front stage, concurrent connections, boundary sizes in every mode, both sides closing)
+        # once more under the race detector
+        rbin = ck.build_harness("c01", race=True)
+        if rbin:
+            rc, out, err = vlib.sh2([rbin, "-child", "-seed", str(ck.seed), "-n", "1" if not ck.thorough else "120",
+                                     "-e2e", "0" if not ck.thorough else "30"], timeout=1200)
+            nrace = sum(1 for line in out.splitlines() if line.startswith("{"))
+            ck.coverage["race_detector_cases"] = nrace
+            # only reports whose stacks run through the repository: the harness itself reads a
+            # handler's bookkeeping after an observation bound elapsed (seen under seeded changes)
+            blocks = [b for b in err.split("WARNING: DATA RACE")[1:] if "shanhu.io/g/" in b.split("==================")[0]]
+            ck.coverage["race_detector_reports_outside_repo"] = err.count("WARNING: DATA RACE") - len(blocks)
+            if blocks:
+                ck.violation("impl:data-race", "the Go race detector reported a data race while proxied connections were "
+                             "transferring and closing", {"stderr": ("WARNING: DATA RACE" + blocks[0])[:3500]})
+            elif rc != 0 and "DATA RACE" not in err:
+                ck.broken.append({"what": "race-detector run failed", "detail": err[-1500:]})
+
     for c in cases:
         s = c["stream"]
         body = c.get(s)
         if body and body.get("skipped"):
             ck.coverage["e2e_skipped_after_timeouts"] = ck.coverage.get("e2e_skipped_after_timeouts", 0) + 1
             continue
-        if s == "e2e" and body:
+        if s == "conc" and body:
+            for cc in body.get("conns") or []:
+                ck.count("conc-" + body["mode"], key=("conc", c["i"], cc["id"]), trivial=False)
+                ck.coverage["e2e_bytes"] = ck.coverage.get("e2e_bytes", 0) + cc["c2a"]["received"] + cc["a2c"]["received"]
+        elif s == "e2e" and body:
             ck.count("e2e-" + body["mode"], key=("e2e", c["i"]), trivial=body["c2a"]["sent"] == 0 and body["a2c"]["sent"] == 0)
             ck.coverage["e2e_bytes"] = ck.coverage.get("e2e_bytes", 0) + body["c2a"]["received"] + body["a2c"]["received"]
         else:
@@ -271,7 +440,7 @@ def run(ck):
 
         def eval_shard(s):
             txt = ("From Coq Require Import List NArith.\n"
-                   "From Verif Require Import Lib.Bytes Sni.Wire Sni.Hello Sni.Stream Sni.StreamCorr.\n"
+                   "From Verif Require Import Lib.Bytes Sni.Wire Sni.Hello Sni.Stream Sni.SideRead Sni.StreamCorr.\n"
                    "Import ListNotations.\nLocal Open Scope N_scope.\n"
                    "Definition cases : list scase := [\n  " + ";\n  ".join(terms[s:s + shard]) + "\n].\n"
                    "Definition M := Eval vm_compute in mismatches cases.\nPrint M.\n")
